@@ -173,7 +173,9 @@ def _build(C, f64=False, dates=None):
                 cell = C["cells"][fr][cam]
                 data[fr, cam] = None if cell is None else _f32(cell, (-1, 2), f64)
         b.data = data
-        b._camMap = list(C["camMap"])
+        if not C.get("camMap_unset"):
+            b._camMap = list(C["camMap"])  # (there is no public way to give a camera map)
+        # else: a block made with the public constructor alone - cameras 0..n-1
     elif t == "calib":
         cams = []
         for c in C["cams"]:
@@ -208,7 +210,7 @@ def _build(C, f64=False, dates=None):
     return b
 
 
-def stamp(block, cdate, mdate, aware=None):
+def stamp(block, cdate, mdate, aware=None, micro=0):
     """aware: minutes east of UTC - the dates are given as timezone-aware datetimes in that zone
     (the same instants; the library stores instants)."""
     if aware is not None:
@@ -218,6 +220,11 @@ def stamp(block, cdate, mdate, aware=None):
         return block
     block.creation_date = _date(cdate)
     block.last_modification_date = _date(mdate)
+    if micro:
+        # a fraction of a second, as datetime.now() has: stored dates are whole seconds, the
+        # second the instant lies in
+        block.creation_date = block.creation_date.replace(microsecond=micro)
+        block.last_modification_date = block.last_modification_date.replace(microsecond=999999 - micro)
     return block
 
 
@@ -379,14 +386,14 @@ def diff(exp, act, path="", out=None, limit=6):
         return out
     if isinstance(exp, dict) and isinstance(act, dict):
         for k in exp:
-            if k in ("links_attr", "links_as"):
+            if k in ("links_attr", "links_as", "camMap_unset"):
                 continue
             if k not in act:
                 out.append((f"{path}.{k}", _short(exp[k]), "<missing>"))
             else:
                 diff(exp[k], act[k], f"{path}.{k}", out, limit)
         for k in act:
-            if k not in exp and k not in ("links_attr", "links_as"):
+            if k not in exp and k not in ("links_attr", "links_as", "camMap_unset"):
                 out.append((f"{path}.{k}", "<missing>", _short(act[k])))
     elif isinstance(exp, list) and isinstance(act, list):
         if len(exp) != len(act):
